@@ -57,16 +57,17 @@ WiringViolations(c) ==
        \cup (IF R_OneDrive(c, i) THEN {} ELSE {"multiple_drivers:" \o c.names[i]})
        \cup (IF R_BBOutLoad(c, i) THEN {} ELSE {"bb_output_load:" \o c.names[i]})
        \cup (IF c.ty[i] = "bb_input" /\ LFo(c, i) # {} THEN {"fanout_from_bb_input:" \o c.names[i]} ELSE {}) : i \in 1..c.n}
-\* every registered instance has all its pins with the right type, unless the caller removed that pin node
+\* every registered instance has all its pins with the right type, unless the caller itself removed that pin node
+\* (whatever it put there afterwards under the same name is its own business)
 PinViolations(c, removed) ==
   UNION { {"missing_pin:" \o Pin(c.bbs[b].inst, p) :
              p \in {q \in Range(c.bbs[b].ins) \cup Range(c.bbs[b].outs) :
                       ~HasName(c, Pin(c.bbs[b].inst, q)) /\ Pin(c.bbs[b].inst, q) \notin removed}}
           \cup {"mistyped_pin:" \o Pin(c.bbs[b].inst, p) :
-             p \in {q \in Range(c.bbs[b].ins) : HasName(c, Pin(c.bbs[b].inst, q))
+             p \in {q \in Range(c.bbs[b].ins) : HasName(c, Pin(c.bbs[b].inst, q)) /\ Pin(c.bbs[b].inst, q) \notin removed
                                                  /\ c.ty[Idx(c, Pin(c.bbs[b].inst, q))] # "bb_input"}}
           \cup {"mistyped_pin:" \o Pin(c.bbs[b].inst, p) :
-             p \in {q \in Range(c.bbs[b].outs) : HasName(c, Pin(c.bbs[b].inst, q))
+             p \in {q \in Range(c.bbs[b].outs) : HasName(c, Pin(c.bbs[b].inst, q)) /\ Pin(c.bbs[b].inst, q) \notin removed
                                                   /\ c.ty[Idx(c, Pin(c.bbs[b].inst, q))] # "bb_output"}}
         : b \in 1..Len(c.bbs)}
 =============================================================================
